@@ -1562,6 +1562,13 @@ write_sub_module(ostream &out, Object *obj) {
     InterrogateDatabase *idb = InterrogateDatabase::get_ptr();
     const InterrogateType &wrapped_itype = idb->get_type(wrapped);
 
+    if (!wrapped_itype.is_class() && !wrapped_itype.is_struct()) {
+      // Only a class has a type object that the alias could be bound to (as
+      // with nested typedefs, we can only export typedefs to structs); a
+      // typedef of an enum, say, has nothing to refer to.
+      return;
+    }
+
     class_name = make_safe_name(wrapped_itype.get_scoped_name());
 
     out << "  // typedef " << wrapped_itype.get_scoped_name()
